@@ -104,7 +104,7 @@ def gen_ops(rng, prop, knobs, profile):
     n = profile.get("length") or wchoice(rng, [(70, rng.randint(3, 9)), (22, rng.randint(10, 16)), (8, rng.randint(17, 60))])
     weights = [(rng.choice([40, 60, 80]), "GET"), (rng.choice([2, 8]), "REMOVE"), (rng.choice([1, 4]), "PURGE"),
                (rng.choice([3, 8]), "REOPEN"), (rng.choice([2, 8]), "TOUCH"), (rng.choice([2, 8]), "AGE"),
-               (rng.choice([1, 5]), "FOREIGN"), (rng.choice([1, 5]), "USER_READ")]
+               (rng.choice([1, 5]), "FOREIGN"), (rng.choice([1, 5]), "USER_READ"), (rng.choice([0, 3]), "EDIT_CONFIG")]
     if c19:
         weights += [(rng.choice([2, 6]), "RES_UPDATE"), (rng.choice([0, 2]), "RES_DELETE"), (rng.choice([1, 4]), "VALIDATOR")]
     ops = []
@@ -137,11 +137,16 @@ def gen_ops(rng, prop, knobs, profile):
             op["name"] = rng.choice(FOREIGN_NAMES)
             op["size"] = rng.choice([0, 10, 5000])
             op["age"] = rng.choice([0, -86400 * 10**9 * 30])
+        elif kind == "EDIT_CONFIG":
+            op["size"] = max(1, int(knobs["max_bytes"] * rng.choice([0.3, 0.5, 0.8, 1.5])))
         elif kind in ("RES_UPDATE", "RES_DELETE"):
             op["res"] = rng.choice(sorted(knobs["res_sizes"]))
         elif kind == "VALIDATOR":
             op["mode"] = rng.choice(["accept", "current"])
         ops.append(op)
+        if kind == "EDIT_CONFIG" and rng.random() < 0.85:
+            # the edit takes effect when the cache is opened again
+            ops.append({"id": n + 100 + i, "op": "REOPEN", "dt": 1000, "size": None, "evict": rng.random() < 0.6})
     if not any(o["op"] == "GET" for o in ops):
         ops.insert(0, {"id": n, "op": "GET", "keys": [0], "dt": 0})
     return ops
